@@ -23,6 +23,9 @@ PROPS = {
     "C06-asyncio-close-skipped-when-eof-fails": ["C06", "C07", "C16"], "C07-h2-busy-only-for-first-stream": ["C07"], "C08-asyncio-write-without-drain-when-locked": ["C08", "C16"],
     "C10-pings-coalesced-to-last": ["C10"], "C13-ws-passthrough-drops-trailing-data": ["C13"], "C14-trio-state-not-copied-per-connection": ["C14", "C16"],
     "C15-no-idle-timer-after-shutdown": ["C15", "C07"], "C16-asyncio-read-loop-at-eof": ["C16"], "C20-dispatcher-tables-aliased": ["C20"],
+    "C01-server-name-lookup-ignores-raw-case": ["C01"], "C02-streambuffer-pop-fast-path-skips-wakeup": ["C02", "C08"], "C05-h2-zero-window-skips-end-check": ["C05", "C09"],
+    "C09-send-data-negative-window-unclamped": ["C09"], "C11-h11-upgrade-any-method": ["C11", "C13"], "C12-ws-denial-headers-validated-at-start-only": ["C12"],
+    "C14-trio-shutdown-sent-at-trigger": ["C14"], "C17-first-chunk-peek-outside-finally": ["C17"], "C18-ws-upgrade-not-counted": ["C18"], "C19-bracketed-ipv6-special-case-removed": ["C19"],
 }
 claimed = {c["property_id"] for c in json.load(open(os.path.join(HERE, "MANIFEST.json")))["checks"]}
 sel = sys.argv[1:]
